@@ -2724,6 +2724,32 @@ func (db *DB) Export(ctx context.Context, dst io.Writer) (ltx.Pos, error) {
 	}
 	gs.pending.Unlock()
 
+	// Acquire the CKPT & READ locks to prevent checkpointing, in case this is in
+	// WAL mode. This must happen before the position is captured below: a commit
+	// followed by a checkpoint between the capture and these locks would change
+	// database pages underneath the captured position.
+	if err := gs.ckpt.RLock(ctx); err != nil {
+		return ltx.Pos{}, fmt.Errorf("acquire CKPT read lock: %w", err)
+	}
+	if err := gs.recover.RLock(ctx); err != nil {
+		return ltx.Pos{}, fmt.Errorf("acquire RECOVER read lock: %w", err)
+	}
+	if err := gs.read0.RLock(ctx); err != nil {
+		return ltx.Pos{}, fmt.Errorf("acquire READ0 read lock: %w", err)
+	}
+	if err := gs.read1.RLock(ctx); err != nil {
+		return ltx.Pos{}, fmt.Errorf("acquire READ1 read lock: %w", err)
+	}
+	if err := gs.read2.RLock(ctx); err != nil {
+		return ltx.Pos{}, fmt.Errorf("acquire READ2 read lock: %w", err)
+	}
+	if err := gs.read3.RLock(ctx); err != nil {
+		return ltx.Pos{}, fmt.Errorf("acquire READ3 read lock: %w", err)
+	}
+	if err := gs.read4.RLock(ctx); err != nil {
+		return ltx.Pos{}, fmt.Errorf("acquire READ4 read lock: %w", err)
+	}
+
 	// If this is WAL mode then temporarily obtain a write lock so we can copy
 	// out the current database size & wal frames before returning to a read lock.
 	if db.Mode() == DBModeWAL {
@@ -2742,29 +2768,6 @@ func (db *DB) Export(ctx context.Context, dst io.Writer) (ltx.Pos, error) {
 
 	// Release write lock, if acquired.
 	gs.write.Unlock()
-
-	// Acquire the CKPT & READ locks to prevent checkpointing, in case this is in WAL mode.
-	if err := gs.ckpt.RLock(ctx); err != nil {
-		return pos, fmt.Errorf("acquire CKPT read lock: %w", err)
-	}
-	if err := gs.recover.RLock(ctx); err != nil {
-		return pos, fmt.Errorf("acquire RECOVER read lock: %w", err)
-	}
-	if err := gs.read0.RLock(ctx); err != nil {
-		return pos, fmt.Errorf("acquire READ0 read lock: %w", err)
-	}
-	if err := gs.read1.RLock(ctx); err != nil {
-		return pos, fmt.Errorf("acquire READ1 read lock: %w", err)
-	}
-	if err := gs.read2.RLock(ctx); err != nil {
-		return pos, fmt.Errorf("acquire READ2 read lock: %w", err)
-	}
-	if err := gs.read3.RLock(ctx); err != nil {
-		return pos, fmt.Errorf("acquire READ3 read lock: %w", err)
-	}
-	if err := gs.read4.RLock(ctx); err != nil {
-		return pos, fmt.Errorf("acquire READ4 read lock: %w", err)
-	}
 
 	// Open database file.
 	dbFile, err := db.os.Open("EXPORT:DB", db.DatabasePath())
